@@ -60,3 +60,13 @@ Theorem hypotheses_satisfiable :
   wf_coreb (flatten false ex_tree) = true /\ fs_type (st (flatten false ex_tree) 0) = FCompound.
 Proof. exact ex_tree_wf. Qed.
 Print Assumptions hypotheses_satisfiable.
+
+(* the property at full strength (every document) is refuted for the engine model, hence -- the check
+   replays the witness -- for the implementation: with a deep history above a state that owns a history
+   the run on event e ends in {scxml, s6, s8}, s8 active without its parent s7 (known finding C02-K1) *)
+Theorem legality_with_shared_history_bits_refuted :
+  exists t evs fuel,
+    let c := flatten false t in
+    legal_configb c (l_cfg (fst (run_loop c lstate (large_step lg_fixed ex_fixed c) l_cfg fuel l_pristine x_init evs))) = false.
+Proof. exists kho_tree, [[101%N]], 12%nat. exact kho_illegal. Qed.
+Print Assumptions legality_with_shared_history_bits_refuted.
